@@ -1,5 +1,6 @@
 import MdsVerif.Proofs.Stack
 import MdsVerif.Proofs.Mlink
+import MdsVerif.Proofs.Ring
 /-!
 # C10 — stack, mlink.List/Queue and ring.Ring preserve their abstract sequence
 
@@ -188,5 +189,50 @@ example :
        .list [1, 3, 4], .val 3] := by decide
 
 end stale
+
+/-!
+## ring.Ring: `Next` and `Prev` stay mutually inverse; no cell is lost or duplicated
+
+`C10_ring_invariant`: after every history of `Of, New, Join, Pop, Next, Prev, At, Peek, Len, Each`
+over the element registers (any registers, any arguments, including nil rings and `Join` of two
+elements of the same ring at any distance), `prev (next i) = i` and `next (prev i) = i` for every
+cell `i` ever allocated, both stay inside the heap, and every register is nil or a cell.  Since
+`next` is then a bijection of the allocated cells, every cell lies on exactly one cycle: `Join` and
+`Pop` (which change neither the number of cells nor any value: `C10_ring_surgery_conserves`)
+rearrange cycles without losing or duplicating an element.
+-/
+section ring
+open MdsVerif.Model.Ring MdsVerif.Proofs.Ring
+
+theorem C10_ring_invariant (ops : List Op) :
+    let s := ops.foldl (fun s op => (step s op).1) ({} : St)
+    (∀ i, i < s.h.size → s.h.nx i < s.h.size ∧ s.h.pv i < s.h.size ∧
+      s.h.pv (s.h.nx i) = i ∧ s.h.nx (s.h.pv i) = i) ∧
+    (∀ r q, s.reg r = some q → q < s.h.size) := by
+  suffices h : ∀ s : St, RInv s → RInv (ops.foldl (fun s op => (step s op).1) s) by
+    have := h {} rinv_init
+    exact ⟨fun i hi => ⟨this.inv.nlt i hi, this.inv.plt i hi, this.inv.pn i hi, this.inv.np i hi⟩, this.regs⟩
+  induction ops with
+  | nil => intro s hs; exact hs
+  | cons op ops ih => intro s hs; exact ih _ (step_rinv s op hs)
+
+/-- `Join` and `Pop` on cells of a well-formed heap keep it well formed, allocate nothing and change no
+value: the cells are only re-linked.  `Pop` leaves `r` linked to itself only. -/
+theorem C10_ring_surgery_conserves (h : Heap) (hi : Inv h) (r s : Nat) (hr : r < h.size) (hs : s < h.size) :
+    (∃ h' p, join h (some r) (some s) = .ok (h', p) ∧ Inv h' ∧ h'.size = h.size ∧ h'.vals = h.vals) ∧
+    (Inv (pop h (some r)) ∧ (pop h (some r)).size = h.size ∧ (pop h (some r)).vals = h.vals ∧
+      (pop h (some r)).nx r = r ∧ (pop h (some r)).pv r = r) := by
+  obtain ⟨h', p, e, i', sz, v, _⟩ := join_inv h hi r s hr hs
+  exact ⟨⟨h', p, e, i', sz, v⟩, pop_inv h hi r hr⟩
+
+/-- non-vacuity: `Of 1 2 3 4 5`, `Join` of the first element with the one at distance 3 splices out
+`[2 3]`; joining that back after `4` gives `[1 4 2 3 5]`; popping `4` leaves `[1 2 3 5]` -/
+example :
+    run {} [.of 0 [1, 2, 3, 4, 5], .at_ 1 0 3, .join 2 0 1, .each 2 9, .each 0 9, .join 3 1 2, .each 0 9,
+      .pop 4 1, .each 0 9, .each 4 9, .len 0, .peek 0 (-1), .peek 0 4]
+    = [.unit, .unit, .unit, .list [2, 3], .list [1, 4, 5], .unit, .list [1, 4, 2, 3, 5],
+       .unit, .list [1, 2, 3, 5], .list [4], .nat 4, .pair 5 true, .pair 0 false] := by decide
+
+end ring
 
 end MdsVerif.Props.C10
